@@ -16,6 +16,7 @@ RULE = (
 )
 ASSUMPTIONS = [
     "solver/process twins are judged only where the activity model is numerically meaningful: cases with an activity coefficient outside 1e-8..1e8 at the feed or permeate state (shipped UNIQUAC sets reach 1e200 outside their fitted range) or a flux above permeance x feed partial pressure are counted and skipped",
+    "process twins whose trajectory runs away (temperature outside 150..600 K or feed mass above twice the initial amount) are counted and skipped: they amplify rounding without bound",
     "iterated permeate modes are run with precision 1e-10..1e-8 and compared at rounding level plus 4 x precision x measured flux sensitivity (the two fixed-point iterations may stop one step apart)",
     "UNIQUAC mismatches are attributed to KF-UNIQUAC-GAMMA2 only by signature: thermodynamics - both evaluations equal the known-bad formula (1e-11) and not the correct one; solver/process - the mismatch vanishes when the twin's activity coefficients are taken from the original mixture at the mirrored composition (mirror shim), which is used for classification only",
 ]
@@ -316,6 +317,10 @@ def process_case(rep, spec, index):
 
     from pyvaporation.mixtures import get_partial_pressures
 
+    if proc.runaway(model, sc.m0):
+        rep.case(case, nontrivial=False, cls="process|" + sc.cls())
+        rep.count("process_runaway_trajectory_skipped")
+        return
     for k in range(len(model.time)):
         pf = get_partial_pressures(model.feed_temperature[k], sc.mix, model.feed_compositions[k], sc.model)
         sane = sane_gamma(sc.mix, sc.model, model.feed_temperature[k], model.feed_compositions[k])
